@@ -256,6 +256,99 @@ func runCase(srv *brokers.Nats, c Case, traces map[string]*bufio.Writer) {
 	}
 }
 
+// earlyStop: Stop is called before Serve has parked on its quit channel (position 0 of the request stream,
+// racing the start-up). Stop must wait for Serve, both must return, and requests published after Stop
+// returned must not be processed.
+func earlyStop(srv *brokers.Nats, workers, qlen int, traces map[string]*bufio.Writer) {
+	runSeq++
+	subject := fmt.Sprintf("c20.svc.%d", runSeq)
+	sconn, _ := srv.Conn()
+	pconn, _ := srv.Conn()
+	defer sconn.Close()
+	defer pconn.Close()
+	var mu sync.Mutex
+	var events []string
+	starts := 0
+	proc := &stubProcessor{onStart: func(id int) {
+		mu.Lock()
+		starts++
+		events = append(events, fmt.Sprintf("{\"ev\":\"start\",\"id\":%d}", id))
+		mu.Unlock()
+	},
+		onEnd: func(id int) {
+			mu.Lock()
+			events = append(events, fmt.Sprintf("{\"ev\":\"end\",\"id\":%d}", id))
+			mu.Unlock()
+		}}
+	server := frugal.NewFNatsServerBuilder(sconn, proc, rig.ProtocolFactory("binary"), []string{subject}).
+		WithWorkerCount(uint(workers)).WithQueueLength(uint(qlen)).Build()
+	c := Case{Workers: workers, QLen: qlen, Hold: "early-stop"}
+	fail := func(key, text string) {
+		res.Violations = append(res.Violations, Violation{key, fmt.Sprintf("workers=%d queue=%d, Stop called before Serve was running: %s", workers, qlen, text), map[string]interface{}{"case": c}})
+	}
+	stopRet := make(chan struct{})
+	mu.Lock()
+	events = append(events, "{\"ev\":\"stopcall\",\"id\":0}")
+	mu.Unlock()
+	go func() {
+		server.Stop()
+		mu.Lock()
+		events = append(events, "{\"ev\":\"stopret\",\"id\":0}")
+		mu.Unlock()
+		close(stopRet)
+	}()
+	time.Sleep(2 * time.Millisecond) // Stop is (or should be) parked on the hand-off now
+	serveDone := make(chan struct{})
+	go func() {
+		server.Serve()
+		mu.Lock()
+		events = append(events, "{\"ev\":\"serveret\",\"id\":0}")
+		mu.Unlock()
+		close(serveDone)
+	}()
+	wedged := false
+	select {
+	case <-stopRet:
+	case <-time.After(5 * time.Second):
+		fail("stop-never-returned", "Stop did not return within 5 s")
+		wedged = true
+	}
+	if !wedged {
+		// published after Stop returned: must not be processed
+		for id := 1; id <= 2; id++ {
+			mu.Lock()
+			events = append(events, fmt.Sprintf("{\"ev\":\"pub\",\"id\":%d}", id))
+			mu.Unlock()
+			pconn.PublishRequest(subject, "c20.none", wire.OpFrame(uint64(2000+id), []byte(strconv.Itoa(id))))
+			pconn.Flush()
+		}
+		select {
+		case <-serveDone:
+		case <-time.After(5 * time.Second):
+			fail("serve-never-returned", "Serve was still running 5 s after Stop returned (the stop request was lost)")
+			wedged = true
+		}
+		time.Sleep(2 * time.Millisecond)
+		mu.Lock()
+		if starts != 0 {
+			fail("late-request-processed", fmt.Sprintf("%d request(s) published after Stop returned were processed", starts))
+		}
+		mu.Unlock()
+	}
+	if wedged {
+		// do not leave the server running behind
+		go server.Stop()
+	} else if w := traces[fmt.Sprintf("w%d_q%d", workers, qlen)]; w != nil {
+		mu.Lock()
+		for _, e := range events {
+			w.WriteString(e + "\n")
+		}
+		mu.Unlock()
+		w.WriteString("{\"ev\":\"reset\",\"id\":0}\n")
+	}
+	res.Runs++
+}
+
 func main() {
 	in := flag.String("in", "", "natssrv_cases.json")
 	out := flag.String("out", "results.json", "")
@@ -304,6 +397,13 @@ func main() {
 			break
 		}
 		runCase(srv, c, traces)
+	}
+	for w := 1; w <= 3; w++ {
+		for q := 0; q <= 2; q++ {
+			if traces[fmt.Sprintf("w%d_q%d", w, q)] != nil || *tracedir == "" {
+				earlyStop(srv, w, q, traces)
+			}
+		}
 	}
 	b, _ := json.MarshalIndent(res, "", " ")
 	os.WriteFile(*out, b, 0o644)
